@@ -3,6 +3,7 @@
 import json, os
 V = os.path.dirname(os.path.dirname(os.path.abspath(__file__)))
 NOTE = {
+    "C03-i": "— neutralised by the F126 repair (Clone now keeps the axes of a pending transposition, so the early return on `transposeWith == nil` is never taken for a clone): its demonstration passes; the programs written to catch it found F126 on the unchanged tree",
     "C15-b": "— does not apply any more (conflicts with the F83 repair of `Filled`); caught by C15 quick before that repair",
     "C02-b": "— neutralised by the F27 repair (views of lazily transposed tensors are always flagged non-contiguous): its demonstration passes; caught by C02 quick before that repair",
     "C04-b": "— neutralised by the F27 repair: its demonstration passes; caught by C04 quick before that repair",
